@@ -80,6 +80,7 @@ func (e *Engine) checkLemma(l *Lemma, cfg SolverCfg) (res *LemmaResult) {
 		}
 	}()
 	genMu.Lock()
+	genIntMode = vc.intMode
 	env := &Env{vc: vc, vars: map[string]*Val{}, heap: vc.heap0, old: vc.heap0, pkg: l.Pkg}
 	t, cerr := func() (t string, err error) {
 		defer func() {
@@ -89,6 +90,7 @@ func (e *Engine) checkLemma(l *Lemma, cfg SolverCfg) (res *LemmaResult) {
 		}()
 		return vc.compileBool(env, l.Body.N), nil
 	}()
+	genIntMode = false
 	genMu.Unlock()
 	if cerr != nil {
 		res.Output = cerr.Error()
